@@ -321,7 +321,8 @@ def plan_queries(prop, tier, seed):
     out = fresh_dir(os.path.join(WORK, f"{prop}-{tier}"))
     cap = 250 if tier == "quick" else 2000
     t0 = time.time()
-    rc, txt = run_harness(binary, ["gen", prop, n, seed, out, cap])
+    rc, txt = run_harness(binary, ["gen", prop, n, seed, out, cap],
+                          env={"HARNESS_DEEP": "1"} if (tier == "thorough" and prop == "C16") else None)
     log(f"[gen] {txt.strip().splitlines()[-1] if txt.strip() else ''} rc={rc} in {time.time() - t0:.1f}s")
     if not harness_outcome(run, rc, txt, out):
         return run.finish()
